@@ -45,6 +45,7 @@ func checkC18(c *core.Ctx) error {
 	c18AccessorsReadInputs(c)
 	c18FactoriesFresh(c)
 	c18AccessorShapes(c)
+	c18SubDistributionCount(c)
 	c18LikeNamed(c)
 	c18NamedKeys(c)
 	c18DecoderComplete(c)
@@ -2721,4 +2722,95 @@ func c18AccessorShapes(c *core.Ctx) {
 		c.Check(guarded, "C18.R5", c.FuncName(p, fd), "length of the decoded list compared with the requested shape", fd.Pos(),
 			"the accessor builds a matrix of the requested shape from the decoded numbers without comparing their count with rows*cols: a truncated configuration gives a matrix whose first element access panics instead of an import error")
 	})
+}
+
+// c18SubDistributionCount (R14): an ImportConfig that stores the decoded list of sub-distributions straight into a field of
+// its receiver (instead of handing it to a constructor that validates it) compares the length of that list with the number
+// of components or states the rest of the configuration defines. Otherwise a configuration with a missing entry imports
+// without error and the first LogPdf indexes past the end of the list.
+func c18SubDistributionCount(c *core.Ctx) {
+	c.Rule("C18.R14", "ImportConfig that stores decoded sub-distributions into a field validates their number", 6)
+	for _, p := range c.LibPkgs() {
+		if !strings.Contains(p.PkgPath, "/statistics/") {
+			continue
+		}
+		info := p.TypesInfo
+		pkg := p
+		core.EachFunc(p, func(_ *ast.File, fd *ast.FuncDecl) {
+			if fd.Recv == nil || fd.Name.Name != "ImportConfig" || len(fd.Recv.List[0].Names) == 0 {
+				return
+			}
+			robj := info.Defs[fd.Recv.List[0].Names[0]]
+			// locals sized by len(config.Distributions)
+			lists := map[types.Object]bool{}
+			ast.Inspect(fd.Body, func(n ast.Node) bool {
+				as, ok := n.(*ast.AssignStmt)
+				if !ok || len(as.Lhs) != 1 || len(as.Rhs) != 1 {
+					return true
+				}
+				if strings.Contains(types.ExprString(as.Rhs[0]), "len(config.Distributions)") {
+					if id, ok := as.Lhs[0].(*ast.Ident); ok {
+						if o := info.Defs[id]; o != nil {
+							lists[o] = true
+						}
+					}
+				}
+				return true
+			})
+			if len(lists) == 0 {
+				return
+			}
+			// stored into a field of the receiver?
+			var store token.Pos
+			ast.Inspect(fd.Body, func(n ast.Node) bool {
+				as, ok := n.(*ast.AssignStmt)
+				if !ok || len(as.Lhs) != 1 || len(as.Rhs) != 1 {
+					return true
+				}
+				sel, ok := as.Lhs[0].(*ast.SelectorExpr)
+				if !ok {
+					return true
+				}
+				if id, ok := ast.Unparen(sel.X).(*ast.Ident); !ok || info.Uses[id] != robj {
+					return true
+				}
+				if rid, ok := ast.Unparen(as.Rhs[0]).(*ast.Ident); ok && lists[info.Uses[rid]] {
+					store = as.Pos()
+				}
+				return true
+			})
+			if store == token.NoPos {
+				return
+			}
+			checked := false
+			loopConds := map[ast.Expr]bool{}
+			ast.Inspect(fd.Body, func(n ast.Node) bool {
+				if fs, ok := n.(*ast.ForStmt); ok && fs.Cond != nil {
+					loopConds[fs.Cond] = true
+				}
+				return true
+			})
+			ast.Inspect(fd.Body, func(n ast.Node) bool {
+				be, ok := n.(*ast.BinaryExpr)
+				if !ok || loopConds[be] {
+					return true
+				}
+				switch be.Op {
+				case token.EQL, token.NEQ, token.LSS, token.GTR, token.LEQ, token.GEQ:
+					s := types.ExprString(be)
+					if strings.Contains(s, "len(config.Distributions)") {
+						checked = true
+					}
+					for o := range lists {
+						if strings.Contains(s, "len("+o.Name()+")") {
+							checked = true
+						}
+					}
+				}
+				return true
+			})
+			c.Check(checked, "C18.R14", c.FuncName(pkg, fd), "number of decoded sub-distributions validated", store,
+				"the decoded list of sub-distributions is stored into the receiver without comparing its length with the number of components/states of the imported model: a configuration with a missing entry imports without error and the first LogPdf indexes past the end of the list")
+		})
+	}
 }
